@@ -180,7 +180,16 @@ func checkRecordJSON(o *model.JObject, r model.Record) error {
 		wantInt(o, "total_mins", total),
 		wantStr(o, "total", model.CanonDuration(total, false, 0)),
 		wantInt(o, "should_total_mins", should),
-		wantStr(o, "should_total", shouldStr),
+		func() error { // the spelling of the sign of a should-total is not constrained; its minutes are (below)
+			got, err := jStr(o, "should_total")
+			if err != nil {
+				return err
+			}
+			if v, perr := model.ParseDurationValue(strings.TrimSuffix(got, "!")); perr != nil || v != should || (r.Should != nil && should != 0 && !strings.HasSuffix(got, "!")) {
+				return fmt.Errorf("should_total = %q, want a spelling of %q", got, shouldStr)
+			}
+			return nil
+		}(),
 		wantInt(o, "diff_mins", total-should),
 		wantStr(o, "diff", model.CanonDuration(total-should, true, 0)),
 		wantTags(o, r.Summary),
